@@ -39,6 +39,10 @@ WR = "asc dvjntlu".replace(" ", "")
 
 def leaves(ctx):
     ls = ["0", "1", "pk_k(A)", "pk_h(A)", "pk(A)", "pkh(A)", "older(5)", "after(9)", "sha256(H)", "hash160(G)"]
+    # boundary locks: whatever value the library admits as a lock must behave as its type says (a zero lock leaves an
+    # empty vector on the stack, values with the disable flag / beyond 2^31 do not check anything)
+    ls += ["older(0)", "after(0)", "older(1)", "after(1)", "older(2147483647)", "after(2147483647)", "older(2147483648)",
+           "after(2147483648)", "older(4194305)", "older(65535)", "after(500000000)"]
     ls += ["multi(1,A,B)", "multi(2,A,B,C)", "sortedmulti(2,C,A,B)"] if ctx != "tap" else \
         ["multi_a(1,A,B)", "multi_a(2,A,B,C)", "sortedmulti_a(1,B,A)", "sortedmulti_a(2,C,A,B)"]
     return ls
